@@ -52,12 +52,28 @@ func (c *LocalChecker) recursiveUserset(_ context.Context, req *ResolveCheckRequ
 	return func(ctx context.Context) (*ResolveCheckResponse, error) {
 		typesys, _ := typesystem.TypesystemFromContext(ctx)
 
-		directlyRelatedUsersetTypes, _ := typesys.DirectlyRelatedUsersets(tuple.GetType(req.GetTupleKey().GetObject()), req.GetTupleKey().GetRelation())
+		objectType := tuple.GetType(req.GetTupleKey().GetObject())
+		relation := req.GetTupleKey().GetRelation()
+
+		directlyRelatedUsersetTypes, _ := typesys.DirectlyRelatedUsersets(objectType, relation)
+		// Only the recursive userset (objectType#relation) is traversed on this path. Usersets of other
+		// relations cannot reach the user type (see UsersetUseRecursiveResolver) and must not be followed
+		// as if they were the recursive relation: the traversal only keeps track of object IDs.
+		recursiveUsersetTypes := make([]*openfgav1.RelationReference, 0, len(directlyRelatedUsersetTypes))
+		for _, ref := range directlyRelatedUsersetTypes {
+			if ref.GetType() == objectType && ref.GetRelation() == relation {
+				recursiveUsersetTypes = append(recursiveUsersetTypes, ref)
+			}
+		}
+		recursiveIter := storage.NewFilteredTupleKeyIterator(rightIter, func(tk *openfgav1.TupleKey) bool {
+			userObject, userRelation := tuple.SplitObjectRelation(tk.GetUser())
+			return userRelation == relation && tuple.GetType(userObject) == objectType
+		})
 		objectProvider := newRecursiveUsersetObjectProvider(typesys)
 
-		return c.recursiveFastPath(ctx, req, rightIter, &recursiveMapping{
+		return c.recursiveFastPath(ctx, req, recursiveIter, &recursiveMapping{
 			kind:                        storage.UsersetKind,
-			allowedUserTypeRestrictions: directlyRelatedUsersetTypes,
+			allowedUserTypeRestrictions: recursiveUsersetTypes,
 		}, objectProvider)
 	}
 }
